@@ -190,7 +190,8 @@ func c11Spellings(path []string, yield func(*c11Chain)) {
 		}
 		seg := path[i]
 		if seg == "*" {
-			for _, a := range []c11Acc{{'s', ""}, {'n', "0"}, {'n', "matrix.i"}} {
+			// ['*'] is a string index: it names a property called "*", which no array has
+			for _, a := range []c11Acc{{'s', ""}, {'n', "0"}, {'n', "matrix.i"}, {'i', "*"}} {
 				rec(i+1, append(accs, a))
 			}
 			return
@@ -269,7 +270,7 @@ var c11Embeddings = []c11Embedding{
 func TestVerifC11(t *testing.T) {
 	r := vNewReport("C11")
 	defer r.Write(t)
-	r.Extra["rule"] = "20 documented untrusted paths: full spelling product of every segment in the bare embedding; proper prefixes, trusted siblings per segment, one-segment extensions, object filter in place of each named segment; array filter followed by an index at every later place of the chain; canonical + adversarial spelling of every path in 23 embeddings (operators, parentheses, call arguments, index positions, 2 and 3 chains, sanitising calls nested both ways), pairs of different paths in the multi-chain embeddings; every path (3 spellings) next to 10 partner chains that leave the matcher in different states, both orders, 3 templates; script positions (run:, github-script script:) and non-script positions (env:, other with: input, if:, name:) through Linter.Lint. oracle = stateless reference matcher on segment lists. class = (family, number of reports expected); non-trivial = something must be reported"
+	r.Extra["rule"] = "20 documented untrusted paths: full spelling product of every segment in the bare embedding; proper prefixes, trusted siblings per segment, one-segment extensions, object filter in place of each named segment; array filter followed by an index at every later place of the chain; canonical + adversarial spelling of every path in 23 embeddings (operators, parentheses, call arguments, index positions, 2 and 3 chains, sanitising calls nested both ways), pairs of different paths in the multi-chain embeddings; every path (3 spellings) next to 10 partner chains that leave the matcher in different states, both orders, 3 templates; script positions (run:, github-script script:; also scripts whose own text holds {{ }} before the placeholder) and non-script positions (env:, other with: input, if:, name:) through Linter.Lint. oracle = stateless reference matcher on segment lists. class = (family, number of reports expected); non-trivial = something must be reported"
 	r.Extra["assumptions"] = []string{"a chain is a variable followed by accessors; chains interrupted by operators are not claimed (DESIGN section 7)", "a non-string index anywhere after an object filter (it selects an element of the filtered array) is not generated"}
 	if raw := vReplayInput(); raw != nil {
 		var rp struct {
@@ -498,6 +499,14 @@ func TestVerifC11(t *testing.T) {
 				{"github-script-key-upper-other-ref", head + "      - uses: actions/github-script@main\n        with:\n          github-token: t\n          SCRIPT: " + q("console.log("+e+")") + "\n", true},
 				{"github-script-multiline", head + "      - uses: actions/github-script@v7\n        with:\n          script: |\n            console.log(1)\n            console.log(" + e + ")\n", true},
 				{"run-multiline", head + "      - run: |\n          echo 1\n          echo " + e + "\n", true},
+				// scripts whose own text holds braces (Go templates, object literals, shell expansions)
+				// before / around the placeholder
+				{"run-after-go-template", head + "      - run: " + q("docker inspect --format '{{.State.Running}}' c; echo "+e) + "\n", true},
+				{"run-between-braces", head + "      - run: " + q("x={{a}} "+e+" y={{b}}") + "\n", true},
+				{"run-after-shell-braces", head + "      - run: " + q("echo ${HOME}}} }} "+e) + "\n", true},
+				{"github-script-after-object-literal", head + "      - uses: actions/github-script@v7\n        with:\n          script: " + q("const o = {retry: {max: 3}}; console.log("+e+")") + "\n", true},
+				{"run-multiline-template-first", head + "      - run: |\n          docker ps --format '{{.Names}}'\n          echo " + e + "\n", true},
+				{"env-after-braces", head + "      - run: echo\n        env:\n          V: " + q("}} "+e) + "\n", false},
 				{"github-script-other-input", head + "      - uses: actions/github-script@v7\n        with:\n          script: x\n          github-token: " + q(e) + "\n", false},
 				{"env", head + "      - run: echo\n        env:\n          V: " + q(e) + "\n", false},
 				{"with-other-action", head + "      - uses: actions/checkout@v4\n        with:\n          ref: " + q(e) + "\n", false},
